@@ -454,14 +454,14 @@ class EventSeries(Cached):
         """
 
         # Get time indices (type boolean or simple '0's and '1's)
-        # Careful here with datatype, int16 allows for maximum time index 32767
+        # (64 bit indices: int16 wrapped silently beyond time index 32767)
         # Get time indices
         if ts1 is None:
-            ex = np.array(np.where(eventseriesx), dtype='int16')
+            ex = np.array(np.where(eventseriesx), dtype='int64')
         else:
             ex = np.array([ts1[eventseriesx == 1]], dtype='float')
         if ts2 is None:
-            ey = np.array(np.where(eventseriesy), dtype='int16')
+            ey = np.array(np.where(eventseriesy), dtype='int64')
         else:
             ey = np.array([ts2[eventseriesy == 1]], dtype='float')
 
